@@ -4,7 +4,8 @@
  R2 M is the running maximum, from 0, over all requested interval levels of the model's own minimum;
  R3 the gate (and the duplicate-id check) dominates every model computation of get_estimates and its true branch always raises;
  R4 every dispatched estimator defines its minimum, and the minimum / training-fraction formulas are the documented ones;
- R5 duplicate reporting unit ids raise ModelClientException (the base class, not the not-enough-subunits subclass).
+ R5 duplicate reporting unit ids - counted per unit id (value_counts / duplicated(subset=id)), not per identical row - raise
+    ModelClientException (the base class, not the not-enough-subunits subclass);
  R6 split arithmetic, structural part: the number of training rows is  max(floor(n_train * fraction), 1)  with n_train the row
     count of the reporting frame - never 0 (an empty training set cannot be fit), the calibration rows are the rest, and the
     conformal quantile level is alpha (1 + 1/n_cal).  That these give n_cal >= 1 and a level < 1 for every n >= minimum is
